@@ -154,7 +154,22 @@ func c13Eval(c *Ctx, cs Case) {
 	// the time an input may take is proportional to its size (limit); a worker that is still silent after
 	// ten times that is taken to hang and is killed
 	limit := int64(500 + len(b)/1000)
-	res := c13Worker.Do(ep, map[string]string{"b": hx(b), "cert": cs.S("cert"), "reader": cs.S("reader")}, time.Duration(10*limit)*time.Millisecond)
+	args13 := map[string]string{"b": hx(b), "cert": cs.S("cert"), "reader": cs.S("reader")}
+	res := c13Worker.Do(ep, args13, time.Duration(10*limit)*time.Millisecond)
+	// Wall-clock time belongs to the machine as much as to the code: on a box that is busy with other work a
+	// 1 KB input has been seen to take 600-2000 ms, or to miss its deadline, once - and 2 ms when asked again.
+	// A verdict about time is therefore re-measured (twice at most, the best run counts): time that is a property of
+	// the input comes back every time, a scheduling accident does not.
+	for try := 0; try < 2 && (res.Class == "timeout" || ((res.Class == "ok" || res.Class == "err") && res.Ms > limit)); try++ {
+		c.Class("untrusted/" + ep + "/time-verdict-remeasured")
+		r2 := c13Worker.Do(ep, args13, time.Duration(10*limit)*time.Millisecond)
+		if r2.Class == "not-run" {
+			break
+		}
+		if r2.Class != "timeout" && (res.Class == "timeout" || r2.Ms < res.Ms) {
+			res = r2
+		}
+	}
 	if res.Class == "not-run" { // the worker gave up after repeated timeouts, which are reported
 		c.Class("untrusted/" + ep + "/not-run-after-timeouts")
 		return
